@@ -180,13 +180,17 @@ impl fmt::Display for ObjUpvalueState {
 pub struct ObjUpvalue {
     data: ObjUpvalueState,
     pub(crate) next: Option<Gc<RefCell<ObjUpvalue>>>,
+    /// While open: the fiber whose stack holds the variable. The variable lives as long as anything
+    /// that captured it, so an open upvalue keeps that fiber - and with it the stack - alive.
+    owner: Option<Gc<RefCell<ObjFiber>>>,
 }
 
 impl ObjUpvalue {
-    pub(crate) fn new(address: *mut Value) -> Self {
+    pub(crate) fn new(address: *mut Value, owner: Option<Gc<RefCell<ObjFiber>>>) -> Self {
         ObjUpvalue {
             data: ObjUpvalueState::Open(address),
             next: None,
+            owner,
         }
     }
 
@@ -229,6 +233,7 @@ impl ObjUpvalue {
     pub fn close(&mut self) {
         let value = self.get();
         self.data = ObjUpvalueState::Closed(value);
+        self.owner = None;
     }
 }
 
@@ -236,7 +241,11 @@ impl GcManaged for ObjUpvalue {
     fn mark(&self) {
         match self.data {
             ObjUpvalueState::Closed(value) => value.mark(),
-            ObjUpvalueState::Open(_) => {}
+            ObjUpvalueState::Open(_) => {
+                if let Some(owner) = self.owner.as_ref() {
+                    owner.mark();
+                }
+            }
         }
         if let Some(u) = self.next.as_ref() {
             u.mark();
@@ -246,7 +255,11 @@ impl GcManaged for ObjUpvalue {
     fn blacken(&self) {
         match self.data {
             ObjUpvalueState::Closed(value) => value.blacken(),
-            ObjUpvalueState::Open(_) => {}
+            ObjUpvalueState::Open(_) => {
+                if let Some(owner) = self.owner.as_ref() {
+                    owner.blacken();
+                }
+            }
         }
         if let Some(u) = self.next.as_ref() {
             u.blacken();
